@@ -504,6 +504,29 @@ func c19Days(c *fw.Ctx, idx int) {
 	}
 }
 
+// c19EveryLength: tracks of exactly idx fixes, idx = 0, 1, 2, ..., a fix every 1,
+// 7, 61 or 3,601 seconds from a start in the evening, through the whole round trip
+// c19RoundTrip judges: encoders and readers that work in blocks or grow buffers
+// have their seams at some number of records.
+func c19EveryLength(c *fw.Ctx, idx int) {
+	n := idx
+	step := []int64{1, 7, 61, 3601}[idx%4]
+	t0 := time.Date(1970+idx%100, time.Month(1+idx%12), 1+idx%28, 21, 30, 0, 0, time.UTC).Unix()
+	fixes := make([]fix, n)
+	for i := range fixes {
+		tt := t0 + int64(i)*step
+		if tt > c19EpochEnd {
+			tt = c19EpochEnd
+		}
+		fixes[i] = fix{lon: float64(i%360) - 180 + 0.25, lat: float64(i%180) - 90 + 0.5, alt: float64(i % 10001), t: tt}
+	}
+	c.Count("track_lengths_round_tripped")
+	if idx%500 == 0 {
+		c.Distinct(fmt.Sprintf("every-length/%d", idx))
+	}
+	c19RoundTrip(c, fixes, geom.Layout(5))
+}
+
 // random multi-day tracks
 func c19Tracks(c *fw.Ctx, idx int) {
 	r := c.R
@@ -903,6 +926,7 @@ func init() {
 		Classes: []fw.Class{
 			{Name: "every-day", Quick: ndays, Thorough: ndays, Run: c19Days, Exhaustive: "every calendar day from 1970-01-01 to 2069-12-31"},
 			{Name: "tracks", Quick: 25000, Thorough: 600000, Run: c19Tracks},
+			{Name: "every-length", Quick: 3001, Thorough: 12001, Chunk: 25, Run: c19EveryLength, Exhaustive: "tracks of every number of fixes from 0 to the class count"},
 			{Name: "decode", Quick: 400000, Thorough: 10000000, Run: c19Decode, RawReplay: c19RawReplay},
 			{Name: "i-tables", Quick: 30000, Thorough: 30000, Run: c19ITables, Exhaustive: "every I record with one extension, start/stop in 00..99, codes LAD/LOD/TDS (plus a second extension), B records of four lengths"},
 			{Name: "h-dte", Quick: 100000, Thorough: 1000000, Run: c19Dates, Exhaustive: "H DTE records over two-digit day, month, year fields (quick: years 00..09; thorough: all)"},
